@@ -1067,6 +1067,7 @@ impl TypeSpace {
             ),
         ];
 
+        let mut fallback_type = "i64";
         if let Some(format) = format {
             if let Some((_fmt, ty, nz_ty, imin, imax)) = formats
                 .iter()
@@ -1096,12 +1097,12 @@ impl TypeSpace {
                     }
                 }
 
-                if min.is_none() {
-                    min = Some(*imin);
-                }
-                if max.is_none() {
-                    max = Some(*imax);
-                }
+                // Values must satisfy the bounds *and* fit the format so the
+                // effective range is the intersection, and the format's type
+                // is wide enough for anything in it.
+                min = Some(min.map_or(*imin, |fmin| fmin.max(*imin)));
+                max = Some(max.map_or(*imax, |fmax| fmax.min(*imax)));
+                fallback_type = ty;
             }
         }
 
@@ -1168,7 +1169,7 @@ impl TypeSpace {
             // bounds.
             // TODO failing that, we should find the type that most tightly
             // matches these bounds.
-            Ok((TypeEntry::new_integer("i64"), metadata))
+            Ok((TypeEntry::new_integer(fallback_type), metadata))
         }
     }
 
